@@ -19,7 +19,7 @@ import sys
 import time
 
 VERIF = os.path.dirname(os.path.dirname(os.path.abspath(__file__)))
-REPO = "/repo"
+REPO = "/repo"          # --scratch: a throw-away worktree of /repo instead (so that /repo stays usable by other runs)
 PY = "/venv/bin/python"
 
 
@@ -42,7 +42,8 @@ def run_demo(d, root):
 
 def run_check(pid, tier):
     t0 = time.time()
-    r = sh([os.path.join(VERIF, "check"), pid, "--tier", tier], cwd=VERIF, timeout=3600)
+    r = sh([os.path.join(VERIF, "check"), pid, "--tier", tier], cwd=VERIF, timeout=3600,
+           env=dict(os.environ, REUSE_VERIF_REPO=REPO))
     out = r.stdout + r.stderr
     viol = [l for l in out.splitlines() if l.startswith("VIOLATION")]
     return {"tier": tier, "exit": r.returncode, "violations": viol, "wall_s": round(time.time() - t0, 1),
@@ -54,7 +55,24 @@ def main():
     ap.add_argument("names", nargs="*")
     ap.add_argument("--tier", default="both", choices=["quick", "thorough", "both"])
     ap.add_argument("--also", default="")
+    ap.add_argument("--scratch", action="store_true", help="apply the patches to a scratch worktree of /repo's HEAD instead of /repo itself")
     a = ap.parse_args()
+    global REPO
+    scratch = None
+    if a.scratch:
+        scratch = "/dev/shm/rv-seed-repo-%d" % os.getpid()
+        r = sh(["git", "-C", "/repo", "worktree", "add", "-q", "--detach", scratch, "HEAD"])
+        if r.returncode != 0:
+            sys.exit("cannot create scratch worktree: " + r.stderr)
+        REPO = scratch
+    try:
+        run(a)
+    finally:
+        if scratch:
+            sh(["git", "-C", "/repo", "worktree", "remove", "--force", scratch])
+
+
+def run(a):
     dirs = sorted(glob.glob(os.path.join(VERIF, "seeded", "*", "patch.diff")))
     dirs = [os.path.dirname(p) for p in dirs]
     if a.names:
@@ -111,7 +129,7 @@ def main():
             name, res["property"], res.get("demo_clean_exit"), res.get("demo_patched_exit"), res["caught"],
             ",".join(res["caught_by"]), res["concrete_input"]), flush=True)
     # regenerate tables from the clean tree so that the Lean side is back in step
-    sh([PY, os.path.join(VERIF, "harness", "gen_tables.py")], cwd=VERIF, env=dict(os.environ, PYTHONPATH=REPO + "/src"))
+    sh([PY, os.path.join(VERIF, "harness", "gen_tables.py")], cwd=VERIF, env=dict(os.environ, PYTHONPATH="/repo/src"))
     # summary over everything on disk
     lines = ["# Seeded changes: which check catches which", "",
              "| seeded change | property | demo (clean / patched) | caught by | concrete failing input |", "|---|---|---|---|---|"]
